@@ -305,6 +305,27 @@ func c09Scenarios(tier string) []*world.Scenario {
 		sc.Name = fmt.Sprintf("C09/shared-slot/%s,FA,FB/d3", shape)
 		out = append(out, sc)
 	}
+	// the refresh goroutine is busy (say, waiting for a silent node's INFO) and does not take the probe replies: the channel
+	// to it fills up after three; the event loop must drop further reports, never wait for room, and keep serving
+	{
+		var reqs []Req
+		for j := 0; j < 6; j++ {
+			reqs = append(reqs, GetReq(keysA[j]), GetReq(keysB[j]))
+		}
+		cs := ClientOf(reqs, false)
+		for j := range cs.Chunks {
+			cs.Chunks[j].WaitTicks, cs.Chunks[j].WaitReplies = j/2, j
+		}
+		var ticks []time.Duration
+		for j := 0; j < 6; j++ {
+			ticks = append(ticks, 1100*time.Millisecond)
+		}
+		sc := &world.Scenario{Nodes: T3m(), Bound: 1, Horizon: 600, Family: "probe-channel-full", NoProbeDrain: true, Ticks: ticks,
+			Clients: []world.ClientSpec{cs}, Name: "C09/probe-channel-full/6-rounds/d1"}
+		sc.TickGate = func(w *world.World) bool { return w.ProbesIdle() && w.Clients[0].NReplies >= 2*(w.Ticks+1) }
+		sc.Check = func(w *world.World) []world.Violation { return CheckStreams(w, StreamOpts{}) }
+		out = append(out, sc)
+	}
 	// a client with a reply backlog behind a full socket is closed by the proxy: the others' replies keep flowing
 	for _, how := range []string{"quit", "garbage", "fin"} {
 		out = append(out, CloseClientWithBacklog("C09", how, 2))
